@@ -929,6 +929,12 @@ class QueryBuilder(Selectable, Term):
 
     @builder
     def select(self, *terms: Any) -> "QueryBuilder":
+        if 0 == len(self._from):
+            # reject before anything is selected: a builder created with immutable=False keeps what was applied
+            for term in terms:
+                if isinstance(term, str):
+                    raise QueryException("Cannot select {term}, no FROM table specified.".format(term=term))
+
         for term in terms:
             if isinstance(term, Field):
                 self._select_field(term)
